@@ -26,6 +26,9 @@ func c06ReqRule(g *Gen) string {
 	}
 	if g.Chance(1, 3) {
 		mods = append(mods, "domain=a.org")
+	} else if g.Chance(1, 5) {
+		// restricted to (or away from) the page's own host
+		mods = append(mods, Pick(g, []string{"domain=example.org", "domain=~example.org", "domain=example.org|a.org"}))
 	}
 	if g.Chance(1, 5) {
 		mods = append(mods, "script")
@@ -132,6 +135,25 @@ func init() {
 					for _, r := range reqs {
 						emit("web\t" + encList([]string{r}) + "\t" + encList([]string{d1, d2}))
 						emit("web\t" + encList([]string{r, "||example.org^$script"}) + "\t" + encList([]string{d2, "||a.org^", d1}))
+					}
+				}
+			}
+			// targeted: document-level exceptions restricted to (or away from) the page's own host, against blocks of the
+			// same page — the engine looks the referrer up without a source
+			for _, blk := range []string{"||example.org^", "||example.org^$important", "||example.org^$domain=example.org"} {
+				for _, dl := range []string{"urlblock", "genericblock", "document", "urlblock,important", "elemhide"} {
+					for _, dom := range []string{"domain=example.org", "domain=~example.org", "domain=a.org", ""} {
+						exc := "@@||example.org^$" + dl
+						if dom != "" {
+							exc += "," + dom
+						}
+						l := []string{blk, exc}
+						if g.Bool() {
+							l = append(l, Pick(g, []string{"@@||example.org^", "||example.org^$script", "@@||a.org^$urlblock"}))
+						}
+						Shuffle(g, l)
+						k := g.Intn(len(l) + 1)
+						emit("engine\t" + encList(l[:k]) + "\t" + encList(l[k:]))
 					}
 				}
 			}
@@ -248,7 +270,13 @@ func init() {
 					v2 := classOf(r2)
 					dres, _ := de.MatchRequest(&urlfilter.DNSRequest{Hostname: "example.org"})
 					v3 := classOf(dres.NetworkRule)
-					return v1 + ";" + v2 + ";" + v3, ruleTexts(m1) + "\t" + ruleTexts(m2) + "\t" + ruleTexts(dres.NetworkRules)
+					// a page that is its own referrer (reload, same-page navigation): the referrer is still looked up as a
+					// document request WITHOUT a source, so rules carrying $domain match one of the two lookups only
+					selfReq := rules.NewRequest("http://example.org/", "http://example.org/", rules.TypeDocument)
+					selfSrc := rules.NewRequest("http://example.org/", "", rules.TypeDocument)
+					m4, m5 := ne.MatchAll(selfReq), ne.MatchAll(selfSrc)
+					v4 := classOf(e.MatchRequest(selfReq).GetBasicResult())
+					return v1 + ";" + v2 + ";" + v3 + ";" + v4, ruleTexts(m1) + "\t" + ruleTexts(m2) + "\t" + ruleTexts(dres.NetworkRules) + "\t" + ruleTexts(m4) + "\t" + ruleTexts(m5)
 				}
 				obs, oracle := run(l1, l2)
 				// swapping the lists and moving rules between them must not change the classes
@@ -257,7 +285,7 @@ func init() {
 				flags := ""
 				cl := func(s string) string {
 					p := strings.Split(s, ";")
-					return p[0][:1] + p[1][:1] + p[2][:1]
+					return p[0][:1] + p[1][:1] + p[2][:1] + p[3][:1]
 				}
 				if cl(o2) != cl(obs) || cl(o3) != cl(obs) {
 					flags = "!SPLIT-DEPENDENT:" + cl(obs) + "/" + cl(o2) + "/" + cl(o3)
